@@ -413,3 +413,11 @@ pub trait DecNumExec: DecNum {
         requires self.fits128()
         ensures r.0 == self.numval();
 }
+
+/// `Result<Uint128, StdError>::unwrap_or_default()` (rewrite R15): Uint128::default() is zero
+pub trait UnwrapOrZero { fn unwrap_or_zero(self) -> Uint128; }
+impl UnwrapOrZero for Result<Uint128, StdError> {
+    fn unwrap_or_zero(self) -> (o: Uint128)
+        ensures self is Ok ==> o == self->Ok_0, self is Err ==> o.0 == 0
+    { match self { Ok(v) => v, Err(_) => Uint128(0) } }
+}
